@@ -831,6 +831,43 @@ def stack_case(case):
             r.eq(got, np.full(3, 1e-4), 'stack-order', 'stack/gas/' + sel, rtol=1e-12)
         du.factory(reload=True)
         return r
+    if case.get('family') == 'makefree-file':
+        # the documented example: a chemistry read from file made free, with gas sub-sections (one forcing a gas of the
+        # file, one injecting a new one) - the same object as building it through the library
+        import os
+        from taurex.chemistry import ChemistryFile, ConstantGas, TwoLayerGas
+        from taurex.mixin import enhance_class, MakeFreeMixin
+        tab = np.array([[0.85 - 1e-3 * i, 0.149, 1e-3 * (i + 1)] for i in range(4)])
+        cf = os.path.join(d, 'chem_makefree.dat')
+        np.savetxt(cf, tab)
+        text = du.par_text([('Chemistry', [('chemistry_type', sel), ('filename', cf), ('gases', 'H2, He, H2O'),
+                                           ('H2O', [('gas_type', 'constant'), ('mix_ratio', '2.5e-3')]),
+                                           ('N2', [('gas_type', 'twolayer'), ('mix_ratio_surface', '1e-4'),
+                                                   ('mix_ratio_top', '1e-7'), ('mix_ratio_P', '1e3')])])])
+        P_ = np.array([1e5, 1e4, 1e2, 1e0])
+        try:
+            chem = du.parser_for(d, text).generate_chemistry_profile()
+            chem.initialize_chemistry(4, np.full(4, 1000.0), P_, None)
+            ref_ = enhance_class(ChemistryFile, MakeFreeMixin, gases=['H2', 'He', 'H2O'], filename=cf)
+            ref_.addGas(ConstantGas('H2O', mix_ratio=2.5e-3))
+            ref_.addGas(TwoLayerGas('N2', mix_ratio_surface=1e-4, mix_ratio_top=1e-7, mix_ratio_P=1e3))
+            ref_.initialize_chemistry(4, np.full(4, 1000.0), P_, None)
+            err = None
+        except Exception as e:
+            err = e
+        r.observe(sel, type(err).__name__)
+        r.nontrivial = True
+        if r.check(err is None, 'builds', 'stack/raised/makefree-file/%s' % exc_sig(err), exc=repr(err), text=text):
+            r.check(list(chem.gases) == list(ref_.gases), 'stack-order', 'stack/makefree-file/gases', got=list(chem.gases),
+                    want=list(ref_.gases))
+            r.check(sorted(chem.fitting_parameters()) == sorted(ref_.fitting_parameters()), 'stack-order',
+                    'stack/makefree-file/fitting-parameters', got=sorted(chem.fitting_parameters()),
+                    want=sorted(ref_.fitting_parameters()))
+            if list(chem.gases) == list(ref_.gases):
+                r.eq(np.asarray(chem.mixProfile, float), np.asarray(ref_.mixProfile, float), 'stack-order',
+                     'stack/makefree-file/mixture', rtol=1e-12)
+        du.factory(reload=True)
+        return r
     items = [('profile_type', sel), ('T', '1000.0')]
     if 'tempscalar' in sel:
         items.append(('scale_factor', '3.0'))
@@ -920,6 +957,8 @@ def enumerate_mixin(ctx):
               'shiftbyt+add50+isothermal']
     sc = [{'stack': s_} for s_ in stacks] + [{'stack': s_, 'amount': True} for s_ in stacks if 'add50' in s_]
     sc.append({'stack': 'scalegas+constant', 'family': 'gas'})
+    sc.append({'stack': 'makefree+file', 'family': 'makefree-file'})
+    sc.append({'stack': 'makefree+fromfile', 'family': 'makefree-file'})
     ctx.run_cases('stack_case', sc, phase='stack')
     du.factory(reload=True)
     cases = []
